@@ -402,6 +402,280 @@ example : (tsAdd (fun b => (addC .directed b).2) (rawAddC .directed)
     (enc 2 (0, 1)) (enc 2 (1, 0)) (homPairs 2 (0, 1) (1, 0))).2 = true := by decide
 example : homPairs 2 (0, 1) (1, 0) = [(1, 3), (2, 4)] := by decide
 
+/-! ### the C13 model's guarded addition *is* `tsAdd` on the pair map
+
+`tsAdd` (`Stationary.lean`) is the abstract description "guard on the named pair, raw store on all
+homologous copies".  For the C13 model of `StationaryTimeSeriesCPDAG.add_edge` this is a theorem:
+same raised flag, and the pair map of the resulting state is the pair map `tsAdd` returns
+(`toPairMap_addEdge`; pair maps are compared on the stored keys `a < b`). -/
+
+theorem storeCopies_other {σ : Type} [PairState σ] (raw : σ → σ) (a b : Nat) :
+    ∀ (copies : List (Nat × Nat)) (g : PairMap σ), (∀ e ∈ copies, (a, b) ≠ PairMap.key e.1 e.2) →
+      storeCopies raw g copies a b = g a b
+  | [], _, _ => rfl
+  | e :: es, g, h => by
+    show storeCopies raw (g.wr e.1 e.2 (raw (g.rd e.1 e.2))) es a b = g a b
+    rw [storeCopies_other raw a b es _ (fun e' he' => h e' (List.mem_cons_of_mem _ he')),
+      PairMap.wr_other g e.1 e.2 _ a b (h e List.mem_cons_self)]
+
+theorem enc_dec (m a : Nat) : enc m (dec m a) = a := by
+  simp only [enc, dec]
+  exact Nat.div_add_mod' a (m + 1)
+
+theorem addC_fst_of_acc (t : ET) (ht : t = .directed ∨ t = .undirected) (b : CBits)
+    (h : (addC t b).2 = false) : (addC t b).1 = rawAddC t b := by
+  rcases b with ⟨x, y, z⟩
+  rcases ht with rfl | rfl <;> (revert x y z; decide)
+
+theorem addEdgeMixed_maxLag (cfg : C13.Cfg) (s : C13.St) (sel : C13.Sel) (u v : C13.TNode) :
+    (C13.addEdgeMixed cfg s sel u v).1.maxLag = s.maxLag := by
+  unfold C13.addEdgeMixed
+  split
+  · rfl
+  · split
+    · rfl
+    · rename_i s1 h1
+      obtain ⟨a1, _⟩ := C13.ensureNode_frame h1
+      split
+      · exact a1
+      · rename_i s2 h2
+        obtain ⟨a2, _⟩ := C13.ensureNode_frame h2
+        split
+        · rw [a2, a1]
+        · split
+          · rw [a2, a1]
+          · show s2.maxLag = _; rw [a2, a1]
+
+/-- the copies of an undirected-type edge given earlier node first are the homologous pairs, possibly
+stored the other way round (contemporaneous edges: smaller variable first) -/
+theorem mem_copies_und_cases {m : Nat} {a b : C13.Node} (hf : b.2 ≤ a.2) {e : C13.Edge}
+    (he : e ∈ C13.copies .und m (a, b)) :
+    e ∈ C13.homologous m a.1 (a.2 - b.2) b.1 ∨ C13.swap e ∈ C13.homologous m a.1 (a.2 - b.2) b.1 := by
+  obtain ⟨x, i⟩ := a
+  obtain ⟨y, j⟩ := b
+  simp only at hf
+  simp only [C13.copies, C13.canonUnd, C13.swap] at he ⊢
+  split at he
+  · omega
+  · split at he
+    · rename_i hc
+      obtain ⟨hij, _⟩ := hc
+      subst hij
+      rw [C13.mem_homologous] at he
+      obtain ⟨k, hk, rfl⟩ := he
+      right
+      rw [C13.mem_homologous]
+      simp only at hk ⊢
+      refine ⟨k, by omega, ?_⟩
+      simp
+    · exact Or.inl he
+
+/-- with valid nodes, an existing edge type and a passing guard the addition is accepted -/
+theorem addEdgeMixed_acc_of {cfg : C13.Cfg} {s : C13.St} {sel : C13.Sel} {u v : C13.TNode}
+    (hg : C13.guardBad cfg s sel u v = false) (hok : C13.okEdge s.maxLag u v = true)
+    (hs : C13.selOk s.layers.length sel = true) : (C13.addEdgeMixed cfg s sel u v).2 = false := by
+  have hv : C13.valid s.maxLag u = true ∧ C13.valid s.maxLag v = true := by
+    simp only [C13.okEdge, Bool.and_eq_true] at hok
+    exact ⟨hok.1.1, hok.1.2⟩
+  have e1 : ∃ s1, C13.ensureNode s u = some s1 := by
+    unfold C13.ensureNode
+    split
+    · exact ⟨_, rfl⟩
+    · simp [hv.1]
+  obtain ⟨s1, h1⟩ := e1
+  obtain ⟨a1, b1⟩ := C13.ensureNode_frame h1
+  have e2 : ∃ s2, C13.ensureNode s1 v = some s2 := by
+    unfold C13.ensureNode
+    split
+    · exact ⟨_, rfl⟩
+    · rw [a1]; simp [hv.2]
+  obtain ⟨s2, h2⟩ := e2
+  obtain ⟨a2, b2⟩ := C13.ensureNode_frame h2
+  have hs2 : C13.selOk s2.layers.length sel = true := by rw [b2, b1]; exact hs
+  have hok2 : C13.okEdge s2.maxLag u v = true := by rw [a2, a1]; exact hok
+  simp [C13.addEdgeMixed, hg, h1, h2, hs2, hok2]
+
+section link
+variable {s : C13.St} (h : C13.CInv s) (i : Nat) (hi : i = 0 ∨ i = 1) (u v : C13.TNode) (huv : u ≠ v)
+  (hacc : (C13.addEdge C13.cfgCpdag s (.one i) u v).2 = false)
+include h hi huv hacc
+
+/-- every homologous copy of the named pair gets the raw store -/
+theorem ts_add_copy {P Q : C13.Node}
+    (hPQ : (P, Q) ∈ C13.homologous s.maxLag (C13.toNode u).1 ((C13.toNode u).2 - (C13.toNode v).2) (C13.toNode v).1) :
+    tsBitsAt (C13.addEdge C13.cfgCpdag s (.one i) u v).1 P Q = rawAddC (layerET i) (tsBitsAt s P Q) := by
+  have h' := C13.cinv_addEdge h i u v huv
+  have hm : (C13.addEdge C13.cfgCpdag s (.one i) u v).1.maxLag = s.maxLag := addEdgeMixed_maxLag _ s _ u v
+  have hacc' : (C13.addEdgeMixed C13.cfgCpdag s (.one i) u v).2 = false := hacc
+  obtain ⟨hg, hok, _, _⟩ := C13.addEdgeMixed_acc hacc'
+  obtain ⟨hu0, hv0⟩ := C13.okEdge_nonpos hok
+  obtain ⟨hlu, hlv, hfw⟩ := C13.okEdge_lags hok
+  rw [C13.mem_homologous] at hPQ
+  obtain ⟨j, hj, hpq⟩ := hPQ
+  simp only [Prod.mk.injEq] at hpq
+  obtain ⟨rfl, rfl⟩ := hpq
+  have ht : layerET i = .directed ∨ layerET i = .undirected := by rcases hi with rfl | rfl <;> simp [layerET]
+  have hsh : ∀ t : C13.St, C13.Inv t → t.maxLag = s.maxLag →
+      tsBitsAt t ((C13.toNode u).1, (C13.toNode u).2 - (C13.toNode v).2 + j) ((C13.toNode v).1, j) =
+        tsBitsAt t (C13.toNode u) (C13.toNode v) := by
+    intro t hit hmt
+    refine tsBitsAt_shift hit ?_ ?_ ?_ ?_ rfl rfl ?_
+    · rw [hmt]; exact hlu
+    · rw [hmt]; exact hlv
+    · rw [hmt]; simp only [C13.toNode] at hj ⊢; omega
+    · rw [hmt]; simp only; omega
+    · simp only [C13.toNode] at hfw ⊢; omega
+  rw [hsh _ h'.1 hm, hsh s h.1 rfl, ts_add_named h i hi u v huv hacc]
+  apply addC_fst_of_acc _ ht
+  rw [← guardBad_eq_addC s i hi hu0 hv0]; exact hg
+
+omit huv in
+/-- pairs that are no homologous copy of the named pair (in either orientation) keep their marks -/
+theorem ts_add_frame {P Q : C13.Node}
+    (h1 : (P, Q) ∉ C13.homologous s.maxLag (C13.toNode u).1 ((C13.toNode u).2 - (C13.toNode v).2) (C13.toNode v).1)
+    (h2 : (Q, P) ∉ C13.homologous s.maxLag (C13.toNode u).1 ((C13.toNode u).2 - (C13.toNode v).2) (C13.toNode v).1) :
+    tsBitsAt (C13.addEdge C13.cfgCpdag s (.one i) u v).1 P Q = tsBitsAt s P Q := by
+  have hacc' : (C13.addEdgeMixed C13.cfgCpdag s (.one i) u v).2 = false := hacc
+  obtain ⟨_, hok, _, hlay⟩ := C13.addEdgeMixed_acc hacc'
+  obtain ⟨_, _, hfw⟩ := C13.okEdge_lags hok
+  have hfw' : (C13.toNode v).2 ≤ (C13.toNode u).2 := hfw
+  rw [show C13.addEdge C13.cfgCpdag s (.one i) u v = C13.addEdgeMixed C13.cfgCpdag s (.one i) u v from rfl]
+  have hl := h.2.1.layers
+  rw [hl] at hlay
+  rcases hi with rfl | rfl
+  · have hlay' : (C13.addEdgeMixed C13.cfgCpdag s (.one 0) u v).1.layers =
+        [⟨.dir, C13.union (C13.layerEdges s 0) (C13.copies .dir s.maxLag (C13.toNode u, C13.toNode v))⟩,
+         ⟨.und, C13.layerEdges s 1⟩] := by rw [hlay]; rfl
+    obtain ⟨e0, e1⟩ := layerEdges_of_layers hlay'
+    simp only at e0 e1
+    have hcp : C13.copies .dir s.maxLag (C13.toNode u, C13.toNode v) =
+        C13.homologous s.maxLag (C13.toNode u).1 ((C13.toNode u).2 - (C13.toNode v).2) (C13.toNode v).1 := by
+      simp [C13.copies, hfw']
+    simp only [tsBitsAt, e0, e1, List.contains_eq_mem, C13.mem_union, hcp, h1, h2, or_false]
+  · have hlay' : (C13.addEdgeMixed C13.cfgCpdag s (.one 1) u v).1.layers =
+        [⟨.dir, C13.layerEdges s 0⟩,
+         ⟨.und, C13.union (C13.layerEdges s 1) (C13.copies .und s.maxLag (C13.toNode u, C13.toNode v))⟩] := by
+      rw [hlay]; rfl
+    obtain ⟨e0, e1⟩ := layerEdges_of_layers hlay'
+    simp only at e0 e1
+    -- the copies of the undirected layer are the homologous pairs, possibly stored the other way round
+    have hcp : ∀ e : C13.Edge, e ∈ C13.copies .und s.maxLag (C13.toNode u, C13.toNode v) →
+        e ∈ C13.homologous s.maxLag (C13.toNode u).1 ((C13.toNode u).2 - (C13.toNode v).2) (C13.toNode v).1 ∨
+        C13.swap e ∈ C13.homologous s.maxLag (C13.toNode u).1 ((C13.toNode u).2 - (C13.toNode v).2) (C13.toNode v).1 :=
+      fun e he => mem_copies_und_cases hfw' he
+    have n1 : (P, Q) ∉ C13.copies .und s.maxLag (C13.toNode u, C13.toNode v) := fun hh => by
+      rcases hcp _ hh with k | k
+      · exact h1 k
+      · exact h2 k
+    have n2 : (Q, P) ∉ C13.copies .und s.maxLag (C13.toNode u, C13.toNode v) := fun hh => by
+      rcases hcp _ hh with k | k
+      · exact h2 k
+      · exact h1 k
+    simp only [tsBitsAt, e0, e1, List.contains_eq_mem, C13.mem_union, n1, n2, or_false]
+
+end link
+
+/-- **the guarded `add_edge` of the C13 model of the StationaryTimeSeriesCPDAG is `tsAdd`**: on valid
+nodes `u ≠ v` (to-node not earlier) and a named edge type, the call raises iff `tsAdd` on the pair map
+does, and the pair map of the state it leaves is the pair map `tsAdd` returns -/
+theorem toPairMap_addEdge {s : C13.St} (h : C13.CInv s) (i : Nat) (hi : i = 0 ∨ i = 1) (u v : C13.TNode)
+    (huv : u ≠ v) (hok : C13.okEdge s.maxLag u v = true) :
+    (C13.addEdge C13.cfgCpdag s (.one i) u v).2 =
+      (tsAdd (fun b => (addC (layerET i) b).2) (rawAddC (layerET i)) (toPairMap s)
+        (enc s.maxLag (C13.toNode u)) (enc s.maxLag (C13.toNode v))
+        (homPairs s.maxLag (C13.toNode u) (C13.toNode v))).2 ∧
+    ∀ a b, a < b → toPairMap (C13.addEdge C13.cfgCpdag s (.one i) u v).1 a b =
+      (tsAdd (fun b => (addC (layerET i) b).2) (rawAddC (layerET i)) (toPairMap s)
+        (enc s.maxLag (C13.toNode u)) (enc s.maxLag (C13.toNode v))
+        (homPairs s.maxLag (C13.toNode u) (C13.toNode v))).1 a b := by
+  obtain ⟨hu0, hv0⟩ := C13.okEdge_nonpos hok
+  obtain ⟨hlu, hlv, hfw⟩ := C13.okEdge_lags hok
+  have hne : C13.toNode u ≠ C13.toNode v := fun hh => huv (C13.toNode_inj hu0 hv0 hh)
+  have ht : layerET i = .directed ∨ layerET i = .undirected := by rcases hi with rfl | rfl <;> simp [layerET]
+  have hchk : (addC (layerET i) ((toPairMap s).rd (enc s.maxLag (C13.toNode u)) (enc s.maxLag (C13.toNode v)))).2 =
+      C13.guardBad C13.cfgCpdag s (.one i) u v := by
+    rw [rd_toPairMap, dec_enc hlu, dec_enc hlv, guardBad_eq_addC s i hi hu0 hv0]
+  cases hg : C13.guardBad C13.cfgCpdag s (.one i) u v with
+  | true =>
+    rw [C13.addEdge_guard_rejected s _ u v hg]
+    have : tsAdd (fun b => (addC (layerET i) b).2) (rawAddC (layerET i)) (toPairMap s)
+        (enc s.maxLag (C13.toNode u)) (enc s.maxLag (C13.toNode v))
+        (homPairs s.maxLag (C13.toNode u) (C13.toNode v)) = (toPairMap s, true) := by
+      simp [tsAdd, hchk, hg]
+    rw [this]
+    exact ⟨rfl, fun _ _ _ => rfl⟩
+  | false =>
+    have hsel : C13.selOk s.layers.length (.one i) = true := by
+      rw [h.2.1.layers]; rcases hi with rfl | rfl <;> simp [C13.selOk]
+    have hacc : (C13.addEdge C13.cfgCpdag s (.one i) u v).2 = false := addEdgeMixed_acc_of hg hok hsel
+    have hm : (C13.addEdge C13.cfgCpdag s (.one i) u v).1.maxLag = s.maxLag := addEdgeMixed_maxLag _ s _ u v
+    have hts : tsAdd (fun b => (addC (layerET i) b).2) (rawAddC (layerET i)) (toPairMap s)
+        (enc s.maxLag (C13.toNode u)) (enc s.maxLag (C13.toNode v))
+        (homPairs s.maxLag (C13.toNode u) (C13.toNode v)) =
+        (storeCopies (rawAddC (layerET i)) (toPairMap s) (homPairs s.maxLag (C13.toNode u) (C13.toNode v)), false) := by
+      simp [tsAdd, hchk, hg]
+    -- what `storeCopies` leaves on the copies (from the conditional theorem, its hypothesis discharged)
+    have hstat : ∀ e ∈ homPairs s.maxLag (C13.toNode u) (C13.toNode v),
+        (toPairMap s).rd e.1 e.2 = (toPairMap s).rd (enc s.maxLag (C13.toNode u)) (enc s.maxLag (C13.toNode v)) := by
+      intro e he
+      simp only [homPairs, List.mem_map] at he
+      obtain ⟨e0, he0, rfl⟩ := he
+      rw [C13.mem_homologous] at he0
+      obtain ⟨j, hj, rfl⟩ := he0
+      simp only [rd_toPairMap]
+      rw [dec_enc (by simp only; omega), dec_enc (by simp only; omega), dec_enc hlu, dec_enc hlv]
+      exact tsBitsAt_shift h.1 hlu hlv (by simp only; omega) (by simp only; omega) rfl rfl
+        (by have : (C13.toNode v).2 ≤ (C13.toNode u).2 := hfw
+            simp only; omega)
+    have hcopies := (storeCopies_All (σ := CBits) (P := fun _ => True) (fun _ _ => trivial)
+      (rawAddC (layerET i)) ((toPairMap s).rd (enc s.maxLag (C13.toNode u)) (enc s.maxLag (C13.toNode v)))
+      trivial _ (homPairs_distinct s.maxLag (C13.toNode u) (C13.toNode v)) (toPairMap s)
+      (fun _ _ _ => trivial) hstat).2
+    rw [hts]
+    refine ⟨hacc, fun a b hab => ?_⟩
+    simp only [toPairMap, hm]
+    by_cases hk : ∃ e ∈ homPairs s.maxLag (C13.toNode u) (C13.toNode v), (a, b) = PairMap.key e.1 e.2
+    · obtain ⟨e, he, hkey⟩ := hk
+      have hrd := hcopies e he
+      simp only [homPairs, List.mem_map] at he
+      obtain ⟨⟨P, Q⟩, hPQ, rfl⟩ := he
+      have hw : P.2 ≤ s.maxLag ∧ Q.2 ≤ s.maxLag := by
+        have := hPQ
+        rw [C13.mem_homologous] at this
+        obtain ⟨j, hj, hpq⟩ := this
+        simp only [Prod.mk.injEq] at hpq
+        obtain ⟨rfl, rfl⟩ := hpq
+        exact ⟨by simp only; omega, by simp only; omega⟩
+      have hcopy := ts_add_copy h i hi u v huv hacc hPQ
+      have hbase : tsBitsAt s P Q = tsBitsAt s (C13.toNode u) (C13.toNode v) := by
+        have := hstat _ (List.mem_map.2 ⟨(P, Q), hPQ, rfl⟩)
+        simp only [rd_toPairMap] at this
+        rwa [dec_enc hw.1, dec_enc hw.2, dec_enc hlu, dec_enc hlv] at this
+      rw [rd_toPairMap, dec_enc hlu, dec_enc hlv] at hrd
+      simp only at hkey hrd
+      unfold PairMap.key at hkey
+      unfold PairMap.rd at hrd
+      split at hkey
+      · rename_i hlt
+        simp only [Prod.mk.injEq] at hkey
+        obtain ⟨rfl, rfl⟩ := hkey
+        simp only [hlt, if_true] at hrd
+        rw [dec_enc hw.1, dec_enc hw.2, hcopy, hbase, hrd]
+      · rename_i hlt
+        simp only [Prod.mk.injEq] at hkey
+        obtain ⟨rfl, rfl⟩ := hkey
+        simp only [hlt, if_false] at hrd
+        rw [dec_enc hw.1, dec_enc hw.2, ← tsBitsAt_swap, hcopy, hbase]
+        have := congrArg CBits.swap hrd
+        rw [show ∀ x : CBits, PairState.swap x = x.swap from fun _ => rfl, CBits.swap_swap] at this
+        exact this.symm
+    · rw [storeCopies_other _ a b _ _ (fun e he hh => hk ⟨e, he, hh⟩)]
+      refine ts_add_frame h i hi u v hacc (fun hin => hk ⟨_, List.mem_map.2 ⟨_, hin, rfl⟩, ?_⟩)
+        (fun hin => hk ⟨_, List.mem_map.2 ⟨_, hin, rfl⟩, ?_⟩)
+      · simp only [enc_dec, PairMap.key, hab, if_true]
+      · have : ¬ b < a := by omega
+        simp only [enc_dec, PairMap.key, this, if_false]
+
 /-! ### non-vacuity -/
 
 /-- x(-1) -- y(0); orient it (asked the "wrong" way round: the edge is oriented forward in time);
